@@ -11,6 +11,7 @@ mod neon_port;
 mod objs;
 mod prng;
 mod props;
+mod seqgen;
 
 use ctx::{Case, Ctx};
 use json::J;
@@ -49,6 +50,11 @@ fn main() {
             }
         }
         "C01" => props::c01::run(&mut ctx),
+        "C05" => props::c05::run(&mut ctx),
+        "C06" => props::c06::run(&mut ctx),
+        "C07" => props::c07::run(&mut ctx),
+        "C10" => props::c10::run(&mut ctx),
+        "C12" => props::c12::run(&mut ctx),
         other => {
             eprintln!("unknown property {}", other);
             std::process::exit(2);
